@@ -10,17 +10,31 @@ Oracle (independent: `ecdsa` + own OER coder): anything handed to process_common
 come from a SECURED frame whose signature verifies over the re-encoded ToBeSignedData under the key of a ticket that
 was seen (pre-loaded or carried in some received frame) and chains to the configured roots, and the delivered bytes
 must be exactly the signed payload (indication data: a suffix of it).
+Concurrency (section "overlapping receive threads"): the model is a function of (station state, packet); the regenerated
+fact Generated/SecWrites.lean + theorem `reentrancy_matches_source` tie that to the source (no instance state written by
+VerifyService on the verification path).  In addition two real threads push one packet each (a genuine one and a
+forged / tampered / second genuine one) through ONE station's process_basic_header -> VerifyService.verify under the
+deterministic scheduler harness/dsched.py (pre-emption before every attribute / subscript / call bytecode of the
+functions of verify_service.py and before every line of certificate_library.py), schedules enumerated up to a
+pre-emption bound, then PCT.  Every run is judged by the oracle above per call (what call i hands up must be packet
+i's own authentic payload) and must show the outcome of one of the two serial orders, which in turn must be what the
+Lean model computes for that order.  A schedule exploration is NOT a proof: it supports the tie and finds inputs.
 """
 from __future__ import annotations
 
 import copy
 import threading
+import types
 
 from common import Infra, corpus
+import dsched
 import realstack as rs
 import sec_common as sc
 
 import flexstack.geonet.router as router_mod
+import flexstack.security.certificate_library as lib_mod
+import flexstack.security.verify_service as vs_mod
+from flexstack.security.ecdsa_backend import PythonECDSABackend
 
 MODULES = ["Props.C03"]
 DRIVERS = ["Sec"]
@@ -56,9 +70,17 @@ class World:
         # forged ticket naming the genuine AA, signed by the attacker
         d, k = p.blank(sc.tbs(app=[36, 37], **live), ("sha256AndDigest", self.aa.as_hashedid8()))
         self.forged = p.raw(self.eat.key_id, d, self.aa, own_key_id=k)
+        # expired material: a ticket whose validity ended a day ago, and a ticket under an authority that has expired
+        # (the code checks the message's generationTime against the TICKET's validity only; nothing in the property
+        # text demands more -- both are exercised so that the model's validity branch and the chain learning see them)
+        self.at_exp = p.issue(self.aa, app=[36, 37, 638, 99], start=now - 100000, duration=("seconds", 3600))
+        self.aa_exp = p.issue(self.root, "aa-expired", issue=[sc.perm_explicit([36, 37], 1)], start=now - 100000,
+                              duration=("seconds", 3600))
+        self.at_xaa = p.issue(self.aa_exp, app=[36, 37], **live)
         self.A = sc.Abs()
         self.A.register_backend(p.backend)
-        for c in (self.root, self.aa, self.at1, self.at2, self.eroot, self.eaa, self.eat, self.forged):
+        for c in (self.root, self.aa, self.at1, self.at2, self.eroot, self.eaa, self.eat, self.forged, self.at_exp,
+                  self.aa_exp, self.at_xaa):
             self.A.cert(c.certificate)
         self.base = []       # (kind, frame)
 
@@ -121,7 +143,8 @@ def mutate(ctx, w, frame):
     hi = sd["tbsData"]["headerInfo"]
     choice = rng.choice(["payload", "psid", "gentime", "hdr-add", "signer-digest-unknown", "signer-other-at", "signer-swap",
                          "r", "s", "s-malleate", "cert-field", "attacker-sig", "attacker-sig-own-cert", "attacker-digest",
-                         "selfmade-chain", "forged-ticket", "resigned-genuine", "signer-self", "two-certs", "sig-format"])
+                         "selfmade-chain", "forged-ticket", "resigned-genuine", "signer-self", "two-certs", "sig-format",
+                         "expired-ticket", "expired-ticket-backdated", "ticket-under-expired-aa"])
     at_of = {sc.hid8(w.at1.certificate): w.at1, sc.hid8(w.at2.certificate): w.at2}
     if sd["signer"][0] == "digest":
         genuine_at = at_of.get(bytes(sd["signer"][1]))
@@ -213,6 +236,15 @@ def mutate(ctx, w, frame):
         if genuine_at is not None:
             hi["generationTime"] = hi.get("generationTime", 0) + rng.choice([0, 5000, 200 * 3600 * 10**6])
             resign(w, sd, genuine_at.key_id)
+    elif choice in ("expired-ticket", "expired-ticket-backdated"):
+        if choice.endswith("backdated"):          # generation time inside the expired ticket's validity: authentic
+            lo, hi_us = sc.validity_us(w.at_exp.certificate)
+            hi["generationTime"] = rng.choice([lo, hi_us, (lo + hi_us) // 2, hi_us + 1, lo - 1])
+        resign(w, sd, w.at_exp.key_id)
+        sd["signer"] = rng.choice([("certificate", [w.at_exp.certificate]), ("digest", w.at_exp.as_hashedid8())])
+    elif choice == "ticket-under-expired-aa":
+        resign(w, sd, w.at_xaa.key_id)
+        sd["signer"] = ("certificate", [w.at_xaa.certificate, w.aa_exp.certificate][:rng.choice([1, 1, 2])])
     elif choice == "signer-self":
         sd["signer"] = ("self", None)
     elif choice == "two-certs":
@@ -321,7 +353,7 @@ def receiver_config(rng):
 def run_sequence(ctx, w, clock, frames, cfg, preload, seq_id):
     """frames: list of (kind, frame).  Returns (model lines, real lines)"""
     A = w.A
-    ats = [w.at1] if preload else []
+    ats = list(preload) if isinstance(preload, (list, tuple)) else ([w.at1] if preload else [])
     R = sc.RouterStation(w.pki.backend, 9, [w.root], [w.aa], ats, lat=415000100, lon=21000100, **cfg)
     R.set_position(clock.ms)
     oracle = Oracle([w.root], [w.aa], ats)
@@ -380,8 +412,8 @@ def compare(ctx, batches):
         pos += len(ls)
 
 
-def check_sequences(ctx, w, clock, n_seq, tag):
-    batches = []
+def check_sequences(ctx, w, clock, n_seq, tag, extra_batches=()):
+    batches = list(extra_batches)
     for s in range(n_seq):
         k = ctx.rng.randrange(6, 16)
         frames = []
@@ -398,8 +430,8 @@ def check_sequences(ctx, w, clock, n_seq, tag):
         lines, reals = run_sequence(ctx, w, clock, frames, cfg, ctx.rng.random() < 0.3, f"{tag}{s}")
         batches.append((lines, reals, f"{tag}{s}"))
     compare(ctx, batches)
-    if batches:
-        ls, rs_, _ = batches[0]
+    if len(batches) > len(extra_batches):
+        ls, rs_, _ = batches[len(extra_batches)]
         ctx.sample("sequence", {"model_in": [l for l in ls if l.startswith("gate")][:3], "real": [r for r in rs_ if r][:3]})
 
 
@@ -422,15 +454,423 @@ def check_all_bitflips(ctx, w, clock, n_base):
     compare(ctx, batches)
 
 
+# ------------------------------------------------------------------------------------------------ overlapping receive threads
+
+
+class MemoBackend(PythonECDSABackend):
+    """verification-only backend of the concurrency runs: `verify_with_pk` memoised (a pure function of its arguments),
+    so that the thousands of schedules of one packet pair cost OER work only.  Harness code: never pre-empted."""
+    _memo = {}
+
+    def verify_with_pk(self, data, signature, pk):
+        k = (bytes(data), repr(signature), repr(pk))
+        r = MemoBackend._memo.get(k)
+        if r is None:
+            try:
+                r = (True, super().verify_with_pk(data, signature, pk))
+            except Exception as e:  # noqa: BLE001 - unsupported formats raise ValueError: part of the behaviour
+                r = (False, (type(e), e.args))
+            if len(MemoBackend._memo) > 20000:
+                MemoBackend._memo.clear()
+            MemoBackend._memo[k] = r
+        if not r[0]:
+            raise r[1][0](*r[1][1])
+        return r[1]
+
+
+def _codes_of(obj, modname, acc):
+    for v in vars(obj).values():
+        f = getattr(v, "__func__", v)
+        if isinstance(f, types.FunctionType) and f.__module__ == modname:
+            todo = [f.__code__]
+            while todo:
+                c = todo.pop()
+                acc.append(c)
+                todo += [k for k in c.co_consts if isinstance(k, types.CodeType)]
+        elif isinstance(v, type) and v.__module__ == modname and obj is not v:
+            _codes_of(v, modname, acc)
+
+
+def conc_codes():
+    """code objects pre-empted at bytecode granularity: every function / method (incl. nested ones and any helper a
+    refactoring adds) defined in flexstack.security.verify_service"""
+    acc = []
+    _codes_of(vs_mod, vs_mod.__name__, acc)
+    return acc
+
+
+CONC_LINE_FILES = {lib_mod.__file__}
+
+
+class ConcEnv:
+    """certificates (public material) of one receiver configuration + the abstraction registry for the model"""
+
+    def __init__(self, root, aa, tickets, A=None):
+        self.root, self.aa, self.tickets, self.A = root, aa, tickets, A
+        self.backend = MemoBackend()
+
+    @staticmethod
+    def from_world(w):
+        return ConcEnv(w.root, w.aa, {"at1": w.at1, "at2": w.at2}, w.A)
+
+    @staticmethod
+    def from_case(case):
+        from flexstack.security.certificate import Certificate
+
+        def cert(hexs, issuer=None):
+            return Certificate.from_dict(sc.CODER.decode_etsi_ts_103097_certificate(bytes.fromhex(hexs)), issuer)
+        root = cert(case["root"])
+        aa = cert(case["aa"], root)
+        return ConcEnv(root, aa, {k: cert(h, aa) for k, h in case.get("tickets", {}).items()})
+
+    def public(self):
+        return {"root": self.root.encode().hex(), "aa": self.aa.encode().hex(),
+                "tickets": {k: v.encode().hex() for k, v in self.tickets.items()}}
+
+    def station(self, pair):
+        ats = [self.tickets[k] for k in pair.get("preload", [])]
+        R = sc.RouterStation(self.backend, 9, [self.root], [self.aa], ats, lat=415000100, lon=21000100,
+                             enabled=True, has_verify=True, has_sign=pair.get("has_sign", True))
+        R.set_position(T0)
+        return R, ats
+
+
+def outcome_of(rec):
+    """canonical per-call outcome (what the upper layers got / the report / the exception class)"""
+    if rec["gate"]:
+        return "pass:" + ",".join(g.hex() for g in rec["gate"])
+    if rec["exc"] is not None:
+        return "raise:" + rec["exc"]
+    if rec["conf"] is not None:
+        return f"drop:report-{rec['conf'].report.value}"
+    return "drop:?"
+
+
+def state_of(R):
+    """library dictionaries (keys in dict order) + P2PCD lists of the real station, without the abstraction registry"""
+    lib = R.lib
+    h = R.ss.cam_handler
+    return (tuple(k.hex() for k in lib.known_authorization_authorities), tuple(k.hex() for k in lib.known_authorization_tickets),
+            tuple(bytes(x).hex() for x in R.ss.unknown_ats), tuple(bytes(x).hex() for x in R.ss.requested_ats),
+            bool(h.requested_own_certificate))
+
+
+class ConcRun:
+    """the frames of `pair` handed to ONE real station by one thread each, under `policy` (None = no scheduler: the
+    calls are made one after the other in the order `serial`)"""
+
+    def __init__(self, env, pair, policy=None, serial=(0, 1), max_steps=40000):
+        frames = [bytes.fromhex(f) for f in pair["frames"]]
+        self.frames, self.env = frames, env
+        R, ats = env.station(pair)
+        self.R, self.ats = R, ats
+        n = len(frames)
+        self.rec = [{"gate": [], "conf": None, "exc": None, "nconf": 0} for _ in range(n)]
+        self.sched = None
+        cur = {"i": None}
+        s = None
+
+        def who():
+            if s is None:
+                return cur["i"]
+            me = s.me()
+            return me.tid if me is not None else None
+
+        def rec_common(packet, basic_header):
+            self.rec[who()]["gate"].append(bytes(packet))
+        R.router.process_common_header = rec_common
+        orig_verify = type(R.vs).verify.__get__(R.vs)
+
+        def rec_verify(request):
+            conf = orig_verify(request)
+            r = self.rec[who()]
+            r["conf"] = conf
+            r["nconf"] += 1
+            return conf
+        R.vs.verify = rec_verify
+
+        def body(i):
+            def run():
+                try:
+                    R.router.process_basic_header(frames[i])
+                except Exception as e:  # noqa: BLE001 - the exception class is an outcome
+                    self.rec[i]["exc"] = type(e).__name__
+            return run
+
+        self.dumps = []
+        if policy is None:
+            for i in serial:
+                cur["i"] = i
+                body(i)()
+                if env.A is not None:
+                    self.dumps.append(R.dump(env.A))
+            self.steps, self.choices, self.abort = [], [], None
+        else:
+            s = dsched.DSched(policy, line_files=CONC_LINE_FILES, opcode_codes=conc_codes(), max_steps=max_steps)
+            self.sched = s
+            for i in range(n):
+                s.spawn(body(i), name=f"rx{i}")
+            s.run(timeout=30.0)
+            self.steps = s.steps
+            self.choices = [c[0] for c in s.steps]
+            self.abort = s.abort_reason
+            for ts in s.threads:
+                if ts.exc is not None and self.rec[ts.tid]["exc"] is None:
+                    self.rec[ts.tid]["exc"] = type(ts.exc).__name__
+        self.outs = tuple(outcome_of(r) for r in self.rec)
+        self.state = state_of(R)
+
+    def judge(self):
+        """the property, per call: what call i handed to the upper layers must be the authentic signed payload of
+        packet i itself (oracle: certificates configured, pre-loaded or seen in either packet)"""
+        bad = []
+        oracle = Oracle([self.env.root], [self.env.aa], self.ats)
+        for f in self.frames:
+            oracle.observe(f)
+        for i, (f, r) in enumerate(zip(self.frames, self.rec)):
+            if self.abort:
+                bad.append(f"run aborted by the scheduler: {self.abort}")
+                break
+            if len(r["gate"]) > 1:
+                bad.append(f"call {i}: one packet handed to the GeoNetworking layer {len(r['gate'])} times")
+            if r["gate"]:
+                ok, why, signed = oracle.authentic(f)
+                if not ok:
+                    bad.append(f"call {i}: payload {r['gate'][0][:16].hex()}.. delivered although its packet is not authentic ({why})")
+                elif any(bytes(g) != bytes(signed) for g in r["gate"]):
+                    other = [j for j, g in enumerate(self.frames) if j != i and (sc.decode_signed(g[4:]) or [None])[0] is not None
+                             and sc.decode_signed(g[4:])[0]["tbsData"]["payload"]["data"]["content"][1] == r["gate"][0]]
+                    bad.append(f"call {i}: delivered bytes are not the signed payload of its own packet"
+                               + (f" but the payload of the packet of call {other[0]}" if other else ""))
+            conf = r["conf"]
+            if conf is not None and conf.report.value == 0 and not r["gate"]:
+                bad.append(f"call {i}: report SUCCESS but nothing handed up")
+        return bad
+
+
+def conc_pairs(ctx, w):
+    """packet pairs of one world: a genuine packet against a forged / tampered / second genuine one"""
+    rng = ctx.rng
+    dec = [(k, f, sc.decode_signed(f[4:])[0]) for k, f in w.base]
+    certs = [(k, f) for k, f, sd in dec if sd["signer"][0] == "certificate" and sc.hid8(sd["signer"][1][0]) == sc.hid8(w.at1.certificate)]
+    certs2 = [(k, f) for k, f, sd in dec if sd["signer"][0] == "certificate" and sc.hid8(sd["signer"][1][0]) == sc.hid8(w.at2.certificate)]
+    digs = [(k, f) for k, f, sd in dec if sd["signer"][0] == "digest" and bytes(sd["signer"][1]) == sc.hid8(w.at1.certificate)]
+    if not certs:
+        return []
+
+    def forge(frame, how):
+        sd = copy.deepcopy(sc.decode_signed(frame[4:])[0])
+        pl = bytearray(sd["tbsData"]["payload"]["data"]["content"][1])
+        pl[-1] ^= 0x5A
+        pl[len(pl) // 2] ^= 0x01
+        sd["tbsData"]["payload"]["data"]["content"] = ("unsecuredData", bytes(pl))
+        if how == "selfmade-chain":
+            resign(w, sd, w.eat.key_id)
+            sd["signer"] = ("certificate", [w.eat.certificate])
+        elif how == "payload-bit":
+            pass                                    # genuine signer and signature, altered payload
+        elif how == "attacker-digest":
+            resign(w, sd, w.eat.key_id)
+            sd["signer"] = ("digest", w.eat.as_hashedid8())
+        elif how == "forged-ticket":
+            resign(w, sd, w.forged.key_id)
+            sd["signer"] = ("certificate", [w.forged.certificate])
+        elif how == "attacker-sig-genuine-cert":
+            resign(w, sd, w.eat.key_id)             # names the genuine ticket, signed by somebody else
+        return frame[:4] + reencode(sd)
+    pairs = []
+
+    def add(name, f0, f1, **kw):
+        fr = [f0, f1]
+        if rng.random() < 0.5:
+            fr.reverse()                            # which thread carries the genuine packet
+        pairs.append(dict(name=name, frames=[x.hex() for x in fr], **kw))
+    k, g = rng.choice(certs)
+    add("cert-vs-selfmade-chain", g, forge(g, "selfmade-chain"))
+    k, g = rng.choice(certs)
+    add("cert-vs-payload-bit", g, forge(g, "payload-bit"))
+    if certs2:
+        add("genuine-vs-genuine", rng.choice(certs)[1], rng.choice(certs2)[1], has_sign=rng.random() < 0.7)
+    if digs:
+        k, g = rng.choice(digs)
+        add("digest-vs-attacker-digest", g, forge(g, "attacker-digest"), preload=["at1"])
+        add("digest-vs-its-certificate", g, rng.choice(certs)[1])      # outcome depends on the order: both are serial
+    k, g = rng.choice(certs)
+    add("cert-vs-forged-ticket", g, forge(g, "forged-ticket"))
+    k, g = rng.choice(certs)
+    add("cert-vs-attacker-sig-genuine-cert", g, forge(g, "attacker-sig-genuine-cert"))
+    add("cert-vs-truncated", g, g[:4 + (len(g) - 4) // 2])
+    return pairs
+
+
+def conc_case(env, pair, choices, bad):
+    return {"kind": "conc", "pair": pair, "schedule": list(choices), "violations": bad[:5], **env.public()}
+
+
+def explore_pair(ctx, env, pair, phases, n_pct, serial_real):
+    """systematic enumeration of schedules, one phase per (pre-emption bound, cap) -- a capped phase is a seeded random
+    sample of the schedules within its bound --, then PCT; every run judged.  Returns #violating runs"""
+    state = {"est": 300, "found": 0, "odd": 0}
+
+    def handle(run):
+        ctx.evals()
+        ctx.cover("conc_runs_" + pair["name"])
+        ctx.cover("conc_preemptions_%d" % min(dsched.preemptions(run.steps), 3))
+        for o in run.outs:
+            ctx.cover("conc_out_" + o.split(":")[0] + (":" + o.split(":")[1] if o.startswith("drop") else ""))
+        ctx.nontrivial(("conc", pair["name"], run.outs, run.state))
+        bad = run.judge()
+        if bad:
+            state["found"] += 1
+            if state["found"] == 1:
+                again = ConcRun(env, pair, dsched.Replay(run.choices))
+                if again.outs != run.outs:
+                    ctx.note(f"conc {pair['name']}: schedule replay diverged ({again.outs} vs {run.outs})")
+                ctx.violation(f"overlapping receive threads, {pair['name']}: {bad[0]} [outcomes {short(run.outs)}; "
+                              f"{dsched.preemptions(run.steps)} pre-emption(s)]", conc_case(env, pair, run.choices, bad))
+        elif (run.outs, run.state) not in serial_real and state["odd"] < 2:
+            state["odd"] += 1
+            ctx.mismatch("conc-serialisability", conc_case(env, pair, run.choices, []),
+                         {"outs": short(run.outs), "state": run.state},
+                         [{"outs": short(o), "state": st} for o, st in serial_real])
+        return run
+
+    def once(prefix):
+        run = handle(ConcRun(env, pair, dsched.Replay(prefix)))
+        state["est"] = max(state["est"], run.sched.nsteps)
+        return run.steps
+    for bound, cap in phases:
+        runs, exhausted = dsched.enumerate_schedules(once, bound, cap, ctx.rng)
+        ctx.cover("conc_systematic_runs", runs)
+        if exhausted:
+            ctx.cover("conc_exhausted_bound_%d" % bound)
+        if state["found"]:
+            break
+    for i in range(n_pct):
+        handle(ConcRun(env, pair, dsched.PCT(ctx.rng, depth=2 + i % 3, est_steps=state["est"])))
+    ctx.cover("conc_pct_runs", n_pct)
+    return state["found"]
+
+
+def short(outs):
+    return tuple(o if len(o) < 40 else o[:28] + ".." + o[-6:] for o in outs)
+
+
+def conc_serial(ctx, w, n_pairs, model=True):
+    """choose the packet pairs of this run, execute each in both serial orders on the real code (judged by the oracle)
+    and abstract these executions for the Lean model.  Returns (env, [(pair, serial outcomes)], model batches in the
+    format of `compare`)"""
+    env = ConcEnv.from_world(w)
+    pairs = conc_pairs(ctx, w)
+    # the first three kinds always, the rest sampled
+    chosen = (pairs[:3] + ctx.rng.sample(pairs[3:], max(0, min(n_pairs - 3, len(pairs) - 3))))[:n_pairs]
+    info, batches = [], []
+    for pair in chosen:
+        serial_real = []
+        for order in ((0, 1), (1, 0)):
+            r = ConcRun(env, pair, None, serial=order)
+            ctx.evals()
+            for b in r.judge():
+                ctx.violation(f"two packets one after the other, {pair['name']} order {order}: {b}",
+                              conc_case(env, pair, [], [b]) | {"serial": list(order)})
+            serial_real.append((r.outs, r.state))
+            if model and ctx.model_ok:
+                A = w.A
+                toks = [sc.frame_tokens(A, f) for f in r.frames]
+                if all(t is not None for t in toks):
+                    pre = sc.new_station_lines(A, 1, [w.root], [w.aa], r.ats, pair.get("has_sign", True))
+                    reals = []
+                    for n_, i in enumerate(order):
+                        o = r.outs[i]
+                        o = ("pass:" + str(A.payload(r.rec[i]["gate"][0]))) if o.startswith("pass") else \
+                            ("raise:parse" if toks[i] == "P" else o)
+                        reals.append(o + " " + r.dumps[n_])
+                    defs = A.all_lines()
+                    ls = ["reset"] + defs + pre + [f"gate 1 1 1 {toks[i]}" for i in order]
+                    batches.append((ls, [None] * (1 + len(defs) + len(pre)) + reals, f"conc:{pair['name']}:{order}"))
+        info.append((pair, serial_real))
+        ctx.sample("conc", {"pair": pair["name"], "serial_outcomes": [short(o) for o, _ in serial_real]})
+    return env, info, batches
+
+
+def conc_explore(ctx, env, info, phases, n_pct, stop_on_first=False):
+    """the always-on concurrency correspondence (and, with larger numbers, the failing-input search)"""
+    if not info:
+        ctx.note("concurrency correspondence skipped: the world produced no certificate-carrying genuine frame")
+    for pair, serial_real in info:
+        explore_pair(ctx, env, pair, phases, n_pct, serial_real)
+        if stop_on_first and ctx.violations:
+            break
+
+
+class RecordedWorld:
+    """receiver side of a recorded sequence (public material only): what `run_sequence` needs of a World"""
+
+    def __init__(self, case):
+        from flexstack.security.certificate import Certificate
+
+        def cert(hexs, issuer=None):
+            return Certificate.from_dict(sc.CODER.decode_etsi_ts_103097_certificate(bytes.fromhex(hexs)), issuer)
+
+        class _P:
+            backend = PythonECDSABackend()
+        self.pki = _P()
+        self.root = cert(case["root"])
+        self.aa = cert(case["aa"], self.root)
+        self.ats = [cert(h, self.aa) for h in case.get("ats", [])]
+        self.A = sc.Abs()
+        for c in [self.root, self.aa] + self.ats:
+            self.A.cert(c.certificate)
+
+
+def recorded_sequence(ctx, clock, case, sid):
+    """a recorded sequence of frames (corpus): judged by the oracle AND compared with the model.  Returns the batch"""
+    w = RecordedWorld(case)
+    frames = [(k, bytes.fromhex(f)) for k, f in zip(case["kinds"], case["frames"])]
+    lines, reals = run_sequence(ctx, w, clock, frames, case["cfg"], w.ats, sid)
+    return lines, reals, sid
+
+
+def replay_conc(case):
+    env = ConcEnv.from_case(case)
+    old_timer = router_mod.Timer
+    router_mod.Timer = sc.NoTimer
+    try:
+        with rs.VClock(T0), rs.quiet():
+            if "serial" in case:
+                r = ConcRun(env, case["pair"], None, serial=tuple(case["serial"]))
+            else:
+                r = ConcRun(env, case["pair"], dsched.Replay(case.get("schedule", [])))
+            bad = r.judge()
+    finally:
+        router_mod.Timer = old_timer
+    return r, bad
+
+
 def run(ctx):
     ctx.extra["rule"] = ("sequences of 6-20 frames (genuine CAM/DENM/VAM/generic frames of two real senders and their mutants, "
                          "replays, random order) into real receiving Routers in 4 security configurations; thorough adds every "
                          "single-bit flip of 8 frames. distinct_nontrivial counts distinct (mutation kind, outcome, report, "
-                         "signer kind) classes")
+                         "signer kind) classes, plus distinct (packet pair, per-call outcomes, final state) of the "
+                         "overlapping-receive-thread runs (two real threads, one station, deterministic scheduler: "
+                         "quick 4 pairs x 45 sampled schedules with <= 1 pre-emption + 5 PCT; thorough 8 pairs, all "
+                         "<= 1, 200 sampled <= 2, 40 PCT)")
     router_mod.Timer = sc.NoTimer
     try:
         with rs.VClock(T0) as clock, rs.quiet():
+            recorded = []
             for name, c in corpus("C03"):
+                if c.get("kind") == "sequence":
+                    recorded.append(recorded_sequence(ctx, clock, c, f"corpus:{name}"))
+                    ctx.cover("corpus_cases")
+                    continue
+                if c.get("kind") == "conc":
+                    r, bad = replay_conc(c)
+                    for b in bad:
+                        ctx.violation(f"{name}: {b}", c)
+                    ctx.cover("corpus_cases")
+                    ctx.evals()
+                    continue
                 bad = replay_case(c)
                 for b in bad:
                     if c.get("scenario") == "unsigned-cert":
@@ -443,7 +883,14 @@ def run(ctx):
             for wi in range(ctx.scale(1, 3)):
                 w = World(ctx.rng)
                 w.make_base(clock, ctx.scale(14, 40))
-                check_sequences(ctx, w, clock, ctx.scale(90, 700), f"w{wi}s")
+                env, info, cb = conc_serial(ctx, w, ctx.scale(4, 8)) if wi == 0 else (None, [], [])
+                if wi == 0:
+                    cb = recorded + cb
+                check_sequences(ctx, w, clock, ctx.scale(90, 700), f"w{wi}s", extra_batches=cb)
+                if wi == 0:
+                    # quick: a seeded random sample of the schedules with <= 1 pre-emption per pair; thorough: all of
+                    # them, then a sample of those with <= 2 -- 30-50 ms per schedule (opcode tracing of the OER codec)
+                    conc_explore(ctx, env, info, phases=ctx.scale([(1, 45)], [(1, 450), (2, 200)]), n_pct=ctx.scale(5, 40))
                 if ctx.thorough and wi == 0:
                     check_all_bitflips(ctx, w, clock, 8)
     finally:
@@ -459,6 +906,14 @@ def search(ctx):
             for wi in range(3):
                 w = World(ctx.rng)
                 w.make_base(clock, 14)
+                if wi == 0:
+                    # overlapping receive threads first (a broken re-entrancy obligation points here): every pair kind,
+                    # pre-emption bound 2, more PCT; judged on the real code by the oracle only
+                    env, info, _ = conc_serial(ctx, w, 8, model=False)
+                    conc_explore(ctx, env, info, phases=ctx.scale([(1, 150), (2, 250)], [(1, 450), (2, 1500)]),
+                                 n_pct=ctx.scale(40, 300), stop_on_first=True)
+                    if ctx.violations:
+                        return
                 check_sequences(ctx, w, clock, ctx.scale(110, 400), f"x{wi}s")
     finally:
         router_mod.Timer = threading.Timer
@@ -567,5 +1022,12 @@ def replay(ctx, obj):
     if case.get("kind") == "sequence":
         bad = replay_sequence(case)
         print(bad or "ok")
+        return bool(bad)
+    if case.get("kind") == "conc":
+        r, bad = replay_conc(case)
+        print(f"pair {case['pair'].get('name')} schedule of {len(case.get('schedule', []))} choices "
+              f"({dsched.preemptions(r.steps)} pre-emption(s)) -> {short(r.outs)}")
+        for b in bad:
+            print("  violated:", b)
         return bool(bad)
     raise Infra("unknown replay kind")
